@@ -174,14 +174,17 @@ def mon_C03(tr):
         st = tr.next_state(i)
         if st is None:
             continue
-        bb, bs = st[2], st[3]
-        if bb is None or bs is None:
+        # the best orders are computed here from the resting set and the property's ranking, not taken
+        # from the engine's own notion of "best" (a corrupted heap misreports it)
+        ids_b, ids_s = [x[0] for x in st[6]], [x[0] for x in st[7]]
+        if not ids_b or not ids_s or any(j not in tr.orders for j in ids_b + ids_s):
             continue
+        bb, bs = min(ids_b, key=tr.rank), min(ids_s, key=tr.rank)
         pb, ps = tr.orders[bb]["price"], tr.orders[bs]["price"]
         if pb is None and ps is None:
             continue
         if pb is None or ps is None or not (pb < ps):
-            out.append(V("executable-pair-left-after-round", i, best_bid=pb, best_ask=ps))
+            out.append(V("executable-pair-left-after-round", i, best_bid=pb, best_ask=ps, bid_id=bb, ask_id=bs))
     return out
 
 
@@ -329,7 +332,7 @@ def mon_C08(tr):
             out.append(V("state-query-raised", i, error=ob.code, text=ob.text))
         if op[0] != "qstate" or not isinstance(ob, list):
             continue
-        (tt, running, bb, bs, pbb, pbs, buys, sells, dbuy, dsell, mp, mid, last, fund, vol, turn, nb, ns) = ob
+        (tt, running, bb, bs, pbb, pbs, buys, sells, dbuy, dsell, mp, mid, last, fund, vol, turn, nb, ns) = ob[:18]
         # quotes describe the book
         known = all(x[0] in tr.orders for x in buys + sells)
         if known:
